@@ -506,6 +506,7 @@ func ruleSnapshotIsolation(c *Ctx, rule string) {
 
 // ruleBindingProvenance implements C02.R2.
 func ruleBindingProvenance(c *Ctx, rule string) {
+	defer withForwarders()()
 	r := c.R
 	find := func(name string) *ssa.Function { return c.Method("engine", "SearchEngineState", name) }
 	// STARTVAR records len(currentMatch)
@@ -851,6 +852,7 @@ func ruleValueCopyDeep(c *Ctx, rule string) {
 // ruleBoundTextIsConsumedText extends C02.R2: whatever is bound to a name is a slice of the text the attempt has consumed, or the
 // variable table of a finished named loop - never text taken from the pattern.
 func ruleBoundTextIsConsumedText(c *Ctx, rule string) {
+	defer withForwarders()()
 	r := c.R
 	ins := c.stateMethod("INSERTVARIABLE")
 	if ins == nil {
